@@ -215,3 +215,35 @@ func fromJSON(s string) interface{} {
 	}
 	return v
 }
+
+// scribble overwrites an input buffer after the call that consumed it: a result must not share memory
+// with the caller's input (the caller may reuse its buffer).
+func scribble(b []byte) {
+	for i := range b {
+		b[i] = '#'
+	}
+}
+
+// guardedInput hands a decoder its input as a sub-slice of a larger buffer (spare capacity filled with a
+// sentinel pattern, as when a caller decodes buf[:n]); check reports a write into the input or past its end.
+func guardedInput(text string) (in []byte, check func() string) {
+	const tail = 24
+	buf := make([]byte, len(text)+tail)
+	copy(buf, text)
+	for i := len(text); i < len(buf); i++ {
+		buf[i] = 0xA5
+	}
+	in = buf[:len(text)]
+	check = func() string {
+		if string(buf[:len(text)]) != text {
+			return fmt.Sprintf("the call modified its input: %q became %q", text, buf[:len(text)])
+		}
+		for i := len(text); i < len(buf); i++ {
+			if buf[i] != 0xA5 {
+				return fmt.Sprintf("the call wrote past the end of its input slice (into the caller's spare capacity): bytes after the input are now %q", buf[len(text):])
+			}
+		}
+		return ""
+	}
+	return
+}
